@@ -535,6 +535,28 @@ def run(ctx):
         for v in (head + rest)[:max(per_job, len(head))]:
             ctx.count("variant:" + v["tag"].split("_")[0])
             corpus.append(v)
+    # a reference must be reproducible: second fresh interpreter (other hash seed, later wall-clock time) for every kept variant
+    again = pmap(fresh, [(v, "20260930") for v in corpus[n0:]])
+    stable = []
+    for v, b_ in zip(corpus[n0:], again):
+        if b_.get("digest") == v["digest"]:
+            stable.append(v)
+            continue
+        label = f"{v['parser']}({v['fname']})"
+        rep = {"kind": "fresh_nondeterministic", "job": label, "file": v["file"], "first": v.get("parts"), "second": b_.get("parts") or b_.get("exc"),
+               "how": f"{sys.executable} {WORKER} fresh '{json.dumps(dict(parser=v['parser'], file=v['file'], args={}))}'  twice"}
+        try:
+            vtext = open(v["file"], encoding="utf8", errors="replace").read()
+        except OSError:
+            vtext = ""
+        if v["parser"] == "antex" and vtext.count("START OF ANTENNA") > vtext.count("VALID UNTIL"):
+            ctx.count("quirk:antex_valid_until_now")
+            ctx.finding("c16_antex_valid_until_now",
+                        "antex: a satellite antenna section without 'VALID UNTIL' gets valid_until = datetime.now(): two parses of the same file never agree",
+                        rep)
+        else:
+            ctx.violation(rep, what=f"two fresh interpreters disagree on {label}")
+    corpus[n0:] = stable
     ctx.log(f"variant files: {len(vjobs)} derived, {len(corpus) - n0} kept ({time.time() - t0:.0f}s since start of fresh phase)")
 
     pidx = {n: k for k, n in enumerate(sorted({j["parser"] for j in corpus}))}
